@@ -69,6 +69,9 @@ pub struct Serials(pub Vec<(usize, u64)>);
 
 #[derive(Default)]
 pub struct LayerCfg {
+    /// the layer emits an event of its own (target `AUX_TARGET`) from inside `register_callsite`: re-entrancy into the
+    /// per-thread interest accumulation of the per-layer filters
+    pub emit_in_register: AtomicBool,
     /// veto `enabled` for this pool site (-1: never veto)
     pub veto_enabled_site: AtomicI64,
     /// veto `event_enabled` for events whose `val` field equals this (0: never)
@@ -118,6 +121,12 @@ impl tracing_core::field::Visit for ValVisitor {
     fn record_debug(&mut self, _f: &tracing_core::field::Field, _v: &dyn std::fmt::Debug) {}
 }
 
+/// target of the events a layer emits from inside its own `register_callsite`; no layer records them
+pub const AUX_TARGET: &str = "c07aux";
+fn is_aux(meta: &Metadata<'_>) -> bool {
+    meta.target() == AUX_TARGET
+}
+
 fn meta_rec(meta: &Metadata<'_>, kind: &'static str) -> LRec {
     let (site, skind, name) = site_of(meta);
     LRec { kind, site, skind, name, ..Default::default() }
@@ -131,6 +140,19 @@ where
         self.push(LRec { kind: "on_register_dispatch", ..Default::default() });
     }
     fn register_callsite(&self, metadata: &'static Metadata<'static>) -> Interest {
+        if is_aux(metadata) {
+            return Interest::always();
+        }
+        if self.cfg.emit_in_register.load(Ordering::SeqCst) {
+            // one callsite per registered site's level, so that several of them are met unregistered in one run
+            match crate::sites::level_num(metadata.level()) {
+                1 => tracing::event!(target: "c07aux", tracing::Level::ERROR, val = 0u64),
+                2 => tracing::event!(target: "c07aux", tracing::Level::WARN, val = 0u64),
+                3 => tracing::event!(target: "c07aux", tracing::Level::INFO, val = 0u64),
+                4 => tracing::event!(target: "c07aux", tracing::Level::DEBUG, val = 0u64),
+                _ => tracing::event!(target: "c07aux", tracing::Level::TRACE, val = 0u64),
+            }
+        }
         let mut r = meta_rec(metadata, "register_callsite");
         r.flag = true;
         self.push(r);
@@ -141,6 +163,9 @@ where
         }
     }
     fn enabled(&self, metadata: &Metadata<'_>, _ctx: Context<'_, C>) -> bool {
+        if is_aux(metadata) {
+            return true;
+        }
         let mut r = meta_rec(metadata, "enabled");
         let veto = self.cfg.veto_enabled_site.load(Ordering::SeqCst);
         r.flag = !(veto >= 0 && veto == r.site as i64);
@@ -212,6 +237,9 @@ where
         self.push(LRec { kind: "on_follows_from", id: span.into_u64(), id2: follows.into_u64(), ..Default::default() });
     }
     fn event_enabled(&self, event: &Event<'_>, _ctx: Context<'_, C>) -> bool {
+        if is_aux(event.metadata()) {
+            return true;
+        }
         let mut r = meta_rec(event.metadata(), "event_enabled");
         let mut v = ValVisitor { val: 0 };
         event.record(&mut v);
@@ -223,6 +251,9 @@ where
         f
     }
     fn on_event(&self, event: &Event<'_>, ctx: Context<'_, C>) {
+        if is_aux(event.metadata()) {
+            return;
+        }
         let mut r = meta_rec(event.metadata(), "on_event");
         let mut v = ValVisitor { val: 0 };
         event.record(&mut v);
